@@ -315,14 +315,23 @@ type BoxDecoder func(hdr BoxHeader, startPos uint64, r io.Reader) (Box, error)
 
 // DecodeBox decodes a box
 func DecodeBox(startPos uint64, r io.Reader) (Box, error) {
+	b, _, err := decodeBoxAndExtraHdr(startPos, r)
+	return b, err
+}
+
+// decodeBoxAndExtraHdr decodes a box and also returns the number of header bytes in the input that are
+// not part of Size(): 8 for a non-mdat box with a 64-bit size field (see useCompactSize), otherwise 0.
+func decodeBoxAndExtraHdr(startPos uint64, r io.Reader) (Box, uint64, error) {
 	var err error
 	var b Box
 
 	h, err := DecodeHeader(r)
 	if err != nil {
-		return nil, err
+		return nil, 0, err
 	}
+	extraHdr := uint64(h.Hdrlen)
 	h.useCompactSize()
+	extraHdr -= uint64(h.Hdrlen)
 
 	d, ok := decoders[h.Name]
 
@@ -332,22 +341,30 @@ func DecodeBox(startPos uint64, r io.Reader) (Box, error) {
 		b, err = d(h, startPos, r)
 	}
 	if err != nil {
-		return nil, fmt.Errorf("decode %s pos %d: %w", h.Name, startPos, err)
+		return nil, 0, fmt.Errorf("decode %s pos %d: %w", h.Name, startPos, err)
 	}
 
-	return b, nil
+	return b, extraHdr, nil
 }
 
 // DecodeBoxLazyMdat decodes a box but doesn't read mdat into memory
 func DecodeBoxLazyMdat(startPos uint64, r io.ReadSeeker) (Box, error) {
+	b, _, err := decodeBoxLazyMdatAndExtraHdr(startPos, r)
+	return b, err
+}
+
+// decodeBoxLazyMdatAndExtraHdr is DecodeBoxLazyMdat that also returns the header bytes not part of Size()
+func decodeBoxLazyMdatAndExtraHdr(startPos uint64, r io.ReadSeeker) (Box, uint64, error) {
 	var err error
 	var b Box
 
 	h, err := DecodeHeader(r)
 	if err != nil {
-		return nil, err
+		return nil, 0, err
 	}
+	extraHdr := uint64(h.Hdrlen)
 	h.useCompactSize()
+	extraHdr -= uint64(h.Hdrlen)
 
 	d, ok := decoders[h.Name]
 
@@ -359,7 +376,7 @@ func DecodeBoxLazyMdat(startPos uint64, r io.ReadSeeker) (Box, error) {
 		switch h.Name {
 		case "mdat":
 			if remainingLength < 0 {
-				return nil, fmt.Errorf("decode box %q: size %d too big", h.Name, h.Size)
+				return nil, 0, fmt.Errorf("decode box %q: size %d too big", h.Name, h.Size)
 			}
 			b, err = DecodeMdatLazily(h, startPos)
 			if err == nil {
@@ -370,10 +387,10 @@ func DecodeBoxLazyMdat(startPos uint64, r io.ReadSeeker) (Box, error) {
 		}
 	}
 	if err != nil {
-		return nil, fmt.Errorf("decode box %q: %w", h.Name, err)
+		return nil, 0, fmt.Errorf("decode box %q: %w", h.Name, err)
 	}
 
-	return b, nil
+	return b, extraHdr, nil
 }
 
 // Fixed16 - An 8.8 fixed point number
